@@ -234,14 +234,15 @@ def prune_cache():
             shutil.rmtree(os.path.join(d, e), ignore_errors=True)
 
 
-def build_harness(name, source, repo_srcs=(), flags=(), extra_sources=(), san=True, variant=""):
+def build_harness(name, source, repo_srcs=(), flags=(), extra_sources=(), san=True, variant="", shared_libs=()):
     """Compiles /verif/harness/<source> against REPO's current working tree.  Cached by the
     content hash of REPO/{include,src}, the harness sources and the flags."""
     src = os.path.join(VERIF, "harness", source)
     extra = [os.path.join(VERIF, "harness", e) for e in extra_sources]
     base = (SAN_FLAGS if san else ["-std=c++17", "-O1", "-g", "-D" + HOOK_GUARD]) + list(flags)
     key = hashlib.sha256((repo_hash() + sha_files(
-        [src, os.path.join(VERIF, "harness", "common.hpp")] + extra) + " ".join(base) +
+        [src, os.path.join(VERIF, "harness", "common.hpp")] + extra +
+        [os.path.join(VERIF, "harness", sl[0]) for sl in shared_libs]) + " ".join(base) +
         " ".join(repo_srcs)).encode()).hexdigest()[:20]
     d = os.path.join(BUILD, "bin", "%s%s.%s" % (name, variant, key))
     exe = os.path.join(d, name)
@@ -267,6 +268,13 @@ def build_harness(name, source, repo_srcs=(), flags=(), extra_sources=(), san=Tr
             out, _ = pr.communicate()
             log += out.decode("utf-8", "replace")
             ok = ok and pr.returncode == 0
+        for sl_src, sl_out, copies in shared_libs:
+            p = run([CXX, "-shared", "-fPIC", "-O1", os.path.join(VERIF, "harness", sl_src), "-o",
+                     os.path.join(d, sl_out)])
+            log += (p.stdout + p.stderr).decode("utf-8", "replace")
+            ok = ok and p.returncode == 0
+            for k in range(copies):
+                shutil.copyfile(os.path.join(d, sl_out), os.path.join(d, sl_out.replace(".so", "_%d.so" % k)))
         if ok:
             link_flags = [f for f in base if f.startswith("-fsanitize") or f in ("-pthread",)] + \
                          [f for f in flags if f.startswith("-Wl,") or f.startswith("-l")]
